@@ -787,7 +787,10 @@ class PyvalColorizer:
             # Keep the source on one line: astor wraps long lines, and the colorizer
             # does its own line wrapping (or none at all for inline values, where
             # everything after the first line break would be dropped).
-            source = astor.to_source(pyval, pretty_source=''.join).strip()
+            # Strings are written with their escapes (astor would write an f-string that
+            # contains a newline as a triple-quoted string with a real line break).
+            source = astor.to_source(pyval, pretty_source=''.join, 
+                                     pretty_string=lambda s, *args, **kwargs: repr(s)).strip()
         except Exception: #  No defined handler for node of type <type>
             state.result.append(self.UNKNOWN_REPR)
         else:
